@@ -855,3 +855,62 @@ def reduction_of(t, name):
     if a[0] == "call" and a[1] in (name, "numpy." + name, "numpy.a" + name, "numpy.nan" + name) and len(a[2]) == 1 and not a[3] and a[1] != "numpy.nan" + name:
         return a[2][0]
     return None
+
+
+def _seq_norm(x):
+    a = x.single_atom() if isinstance(x, T.R) else None
+    while a is not None:
+        if a[0] == "call" and a[1] in ("list", "tuple", "set", "sorted") and len(a[2]) == 1 and not a[3]:
+            x = a[2][0]
+        elif a[0] == "mcall" and a[2] == "keys" and not a[3]:
+            x = a[1]
+        else:
+            break
+        a = x.single_atom()
+    return x
+
+
+def set_operands(t):
+    """the collections whose union the set-valued term t denotes, in any spelling:
+       set(a + b) | set(list(a) + b) | set(a) | set(b) | set(a).union(b); list(x), tuple(x), x.keys() are seen through.  None if t is not a set."""
+    a = t.single_atom() if isinstance(t, T.R) else None
+    if a is None:
+        return None
+    if a[0] == "bitor":
+        l, r = set_operands(a[1]), set_operands(a[2])
+        return None if l is None or r is None else l + r
+    if a[0] == "mcall" and a[2] == "union" and a[3]:
+        l = set_operands(a[1])
+        return None if l is None else l + [_seq_norm(x) for x in a[3]]
+    if a[0] == "call" and a[1] == "set" and len(a[2]) == 1 and not a[3]:
+        x = _seq_norm(a[2][0])
+        xa = x.single_atom()
+        if xa is not None and xa[0] == "concat":
+            return [_seq_norm(xa[1]), _seq_norm(xa[2])]
+        if xa is None and not x.is_const() and x.den == (((), T.Fraction(1)),) and all(c_ == 1 and len(m) == 1 and m[0][1] == 1 for m, c_ in x.num):
+            return [_seq_norm(atom(m[0][0])) for m, _c in x.num]  # list + list
+        return [x]
+    return None
+
+
+def dict_view(tr, t):
+    """(key at position POS, value at position POS, count) of a dict built pairwise from two sequences:
+       {ks[i]: vs[i] for i in range(n)} | dict(zip(ks, vs)) | {k: v for k, v in zip(ks, vs)}; None otherwise."""
+    a = t.single_atom() if isinstance(t, T.R) else None
+    if a is None:
+        return None
+    if a[0] == "comp" and a[1] == "dict" and len(a[2]) == 2 and len(a[3]) == 1 and not a[4]:
+        k = _per_iteration(tr, a[3][0], None, a[2][0], 0)
+        v = _per_iteration(tr, a[3][0], None, a[2][1], 0)
+        if k is None or v is None:
+            r = a[3][0].single_atom()
+            if r is not None and r[0] == "call" and r[1] == "zip" and len(r[2]) == 2:
+                f = lambda z: POS if z[0] == "idx" else None
+                return T.subst(a[2][0], f), T.subst(a[2][1], f), atom(("call", "len", (r[2][0],), ()))
+            return None
+        return k[0], v[0], k[1]
+    if a[0] == "call" and a[1] == "dict" and len(a[2]) == 1 and not a[3]:
+        z = a[2][0].single_atom()
+        if z is not None and z[0] == "call" and z[1] == "zip" and len(z[2]) == 2 and not z[3]:
+            return sub(z[2][0], POS), sub(z[2][1], POS), atom(("call", "len", (z[2][0],), ()))
+    return None
